@@ -1,0 +1,5 @@
+//go:build !verif
+
+package types
+
+func verifStep(point string) {}
